@@ -174,9 +174,9 @@ Section Expand.
       destruct (counter_name m) as [k|]; [|discriminate].
       destruct (xs [ArrayAccess (Variable_ m k [])] b) as [[b' db]|] eqn:Eb; [|discriminate].
       pose proof (proj2 (IHb _ b' db Eb)) as Hb.
-      destruct db as [|d0 db]; intros [= <- _]; (split; [intros; discriminate|]); cbn [PM.ast_init_ok forallb]; intros H.
-      + apply Hb. exact H.
+      destruct (existsb (counted_by k) db); intros [= <- _]; (split; [intros; discriminate|]); cbn [PM.ast_init_ok forallb]; intros H.
       + rewrite (Hb H). reflexivity.
+      + apply Hb. exact H.
     - (* Return *)
       intros m v ix s' d. cbn [xstmt]. destruct (plain v); [|discriminate]. intros [= <- _]. apply leaf_case. reflexivity.
     - (* InitializationBlock *)
